@@ -62,7 +62,7 @@
 #endif
 
 enum { N_SEQ, N_TRY, N_THROW, N_CALL, N_MARK, N_TMPL };
-enum { NKINDS = 10 };
+enum { NKINDS = 19 };
 enum { MAXF = 8 };
 
 typedef struct Node Node;
@@ -84,7 +84,11 @@ static var UserExcEOF = CelloEmpty(UserExcEOF);
 static var User = CelloEmpty(User);
 static var K[NKINDS];
 static const char* KN[NKINDS] = { "TypeError", "KeyError", "ValueError", "IOError", "UserExc", "UserExcEOF", "User",
-                                   "IndexOutOfBoundsError", "ClassError", "FormatError" };
+                                   "IndexOutOfBoundsError", "ClassError", "FormatError",
+                                   /* the remaining built-in exception objects: every one is its own kind */
+                                   "BusyError", "ResourceError", "OutOfMemoryError", "SegmentationError", "ProgramAbortedError",
+                                   "DivisionByZeroError", "IllegalInstructionError", "ProgramInterruptedError",
+                                   "ProgramTerminationError" };
 
 static var last_thrown = NULL;
 static int in_child = 0;
@@ -561,6 +565,8 @@ int main(int argc, char** argv) {
   setvbuf(stdout, NULL, _IOLBF, 0);    /* a stuck or killed case still shows how far it got */
   K[0] = TypeError; K[1] = KeyError; K[2] = ValueError; K[3] = IOError; K[4] = UserExc; K[5] = UserExcEOF; K[6] = User;
   K[7] = IndexOutOfBoundsError; K[8] = ClassError; K[9] = FormatError;
+  K[10] = BusyError; K[11] = ResourceError; K[12] = OutOfMemoryError; K[13] = SegmentationError; K[14] = ProgramAbortedError;
+  K[15] = DivisionByZeroError; K[16] = IllegalInstructionError; K[17] = ProgramInterruptedError; K[18] = ProgramTerminationError;
   thr_fn_s.f.func = thr_main; thr_fn = header_init(&thr_fn_s, Function, AllocStatic);
   if (EXIT_FAILURE isnt 1) { harness_bug("EXIT_FAILURE is not 1 on this platform"); }
   while (true) {
